@@ -199,6 +199,35 @@ pub fn run(r: &mut Report, ctx: &Ctx) {
             },
         );
     }
+    if ctx.want("large-updates") {
+        r.section(
+            "large-updates",
+            "allocator calls while armed around single large update calls (64 KiB-1, 64 KiB, 64 KiB+1, 1 MiB, 1 MiB+1, 5 MiB+3, 17 MiB) and the following finalize / clone, every variant: must be 0 (a temporary buffer for big inputs would show here); non-trivial = all",
+            "7 sizes x 5 variants",
+            true,
+            |s| {
+                let sizes = [65535usize, 65536, 65537, 1 << 20, (1 << 20) + 1, (5 << 20) + 3, 17 << 20];
+                let big = Stream::Mixed.bytes(0, 17 << 20);
+                let big = &big;
+                s.acc = par_for(35, 1, |idx, acc| {
+                    let sz = sizes[(idx / 5) as usize];
+                    fn go<V: Variant>(data: &[u8]) -> (u64, &'static str) {
+                        gen_ops_allocs::<V>(data, &[usize::MAX])
+                    }
+                    acc.evals += 1;
+                    acc.transitions += 40;
+                    acc.nontrivial += 1;
+                    let (n, what) = with_variant!(idx % 5, go(&big[..sz]));
+                    acc.outcomes.insert(n);
+                    if n != 0 {
+                        acc.fail(idx, "large-updates", format!("{}: {what} made {n} allocator call(s) on a single {sz}-byte update", VARIANT_NAMES[(idx % 5) as usize]), json!({"kind": "large-alloc", "key": format!("alloc-{what}"), "variant": VARIANT_NAMES[(idx % 5) as usize], "size": sz}));
+                    } else {
+                        acc.sample(idx, || json!({"variant": VARIANT_NAMES[(idx % 5) as usize], "single_update_bytes": sz, "allocator_calls": 0}));
+                    }
+                });
+            },
+        );
+    }
     if ctx.want("hash-ops") {
         fn per<V: Variant>(r: &mut Report) {
             let name = format!("hash-ops-{}", V::NAME);
